@@ -33,11 +33,14 @@ def c2p23 : Float32 := Float32.ofBits 0x4B000000
     let t := x.toInt32.toFloat32
     if t > x then canon (t - c1) else if t == x then canon x else canon t
 
-/-- micromath `floor`. -/
+/-- `mm::floor` (float.rs:43-51): the 2^23 guard, then micromath's `floor`. -/
 @[inline] def mmFloor (b : UInt32) : UInt32 :=
   let x := f b
-  let r := x.toInt32.toFloat32
-  if x < r then canon (r - c1) else canon r
+  let a := f (b &&& 0x7FFFFFFF)
+  if !(a < c2p23) then canon x
+  else
+    let r := x.toInt32.toFloat32
+    if x < r then canon (r - c1) else canon r
 
 /-- tex.rs:136 one axis of the repeating sampler. -/
 @[inline] def repeatAxis (mask : UInt32) (b : UInt32) : UInt32 :=
